@@ -154,6 +154,8 @@ def h_history(l1: int, l2: int, k: int, numtype='int32', indextype='int64', atom
     removed, another of a different length appended: same number of subarrays, other values length) must
     describe the array as it is at the moment of asking"""
     assume(1 <= l1 <= 2 ** 20 and 0 <= l2 <= 2 ** 20 and 1 <= k <= 2 ** 20)
+    hi = symnp.INT_RANGE[indextype][1]
+    assume(l1 + l2 <= hi and l1 + l2 + k <= hi)       # every index is representable in the index type (else: C04/C10)
     small(_small, l1, l2, k)
     w = new_world()
     put_ragged(D, w, '/w/dat/rag', [l1, l2], numtype, bo, tuple(atom), indextype)
